@@ -170,7 +170,8 @@ func propC02(o *out, r *rng, thorough bool) {
 		"SELECT mean(v) FROM m GROUP BY time(1m) fill(0.000000001)", "SELECT v FROM m ORDER BY \"time\" DESC", "SHOW TAG VALUES WITH KEY IN (\"a b\", c)",
 		"SELECT 100000000000000000000000.0, 0.000000001 FROM m", "SELECT v FROM m WHERE t = 'a\\nb' AND \"x\\ny\" = 1", "SELECT * FROM \"a\".\"b\".\"c\" WHERE time > now() - 1h",
 		"SELECT v::field, \"v w\"::tag FROM m", "CREATE DATABASE d WITH DURATION 0s", "SELECT v FROM m WHERE x =~ /a\\/b/ AND y !~ /\\d/",
-		"SHOW MEASUREMENTS ON \"\".rp", "SHOW MEASUREMENTS ON \"\".*", "SHOW MEASUREMENTS ON \"\".\"\"", "SHOW MEASUREMENTS ON \"\"", "CREATE DATABASE x WITH NAME \"\"",
+		"SHOW TAG KEYS FROM cpu ORDER BY \"key\"", "SHOW MEASUREMENTS ORDER BY \"name\" DESC", "SHOW FIELD KEYS FROM cpu ORDER BY \"my column\" LIMIT 2", "SHOW SERIES ORDER BY \"a DESC, b\"", "SELECT v FROM m ORDER BY \"my col\" DESC",
+		"SHOW TAG VALUES WITH KEY = k ORDER BY \"select\", host DESC", "SELECT \"a^b\" * c, x / \"p^q\" / y, \"a[0]\", \"a`b\" FROM m WHERE \"k^\" = 1", "SHOW MEASUREMENTS ON \"\".rp", "SHOW MEASUREMENTS ON \"\".*", "SHOW MEASUREMENTS ON \"\".\"\"", "SHOW MEASUREMENTS ON \"\"", "CREATE DATABASE x WITH NAME \"\"",
 		"SELECT v FROM \"\".rp.m", "SELECT v FROM \"\"..m", "SELECT v INTO \"\".rp.t FROM m", "SELECT v INTO \"\".\"\".\"\" FROM m", "SHOW TAG KEYS ON \"\" FROM \"\""} {
 		c02One(o, w, "witness")
 	}
